@@ -56,4 +56,16 @@ var props = map[string]*propCfg{
 			"when getwd fails printed paths cannot be resolved; diagnostics are then compared modulo the directory part of the path",
 		},
 	},
+	"C20": {
+		ID: "C20", Level: "exploration", QuickSecs: 75, ThoroughSecs: 1200,
+		Lanes: []lane{{Variant: "", Share: 6}, {Variant: "faults", Share: 6}, {Variant: "", Race: true, Share: 2}, {Variant: "faults", Race: true, Share: 2}},
+		Rule: "one evaluation = 1-6 generated workflow files x 1-3 jobs x 1-4 steps with shells chosen at step / job default / workflow default / runner default (windows labels) / none, custom shells, scripts with 0-3 placeholders (adjacent, at start/end, unterminated, '}}' inside a string, multi-line) and issue markers, both / one / no tool enabled or not installed, NumCPU in {1,2,3,4,16}; linted once by the real Linter with the real process.go protocol against simulated shellcheck/pyflakes whose latency (0, 1 ms, 10 ms, 1 s, 1 h of simulated time) and completion order are seeded choices; lane 'faults' additionally makes 1-2 invocations fail (cannot start: ENOENT/EACCES/EAGAIN, killed, killed after partial output, non-zero without output, exits before reading stdin, shellcheck prints non-JSON); distinct = distinct (world hash, interleaving signature = hash of the ordered kernel event trace incl. process start/exit events); non-trivial = >= 2 expected tool invocations and >= 2 tasks runnable at some scheduling point",
+		Assumptions: []string{
+			"reference model from the YAML via yaml.v3: effective shell = step shell > job defaults.run.shell > workflow defaults.run.shell > pwsh when a literal runs-on label is windows or windows-* > bash; shellcheck iff bash/sh or 'bash '/'sh ' prefix; pyflakes iff python or 'python ' prefix (no runner default); stdin = setup line + script with each ${{ ... }} replaced by as many underscores (an unterminated ${{ and the rest left as is) + newline for shellcheck, the sanitised script for pyflakes",
+			"tool models derive their issues from markers in stdin, so an issue's line/column is wrong whenever the sanitised script has another length than the original; a diagnostic matches an issue when its message contains the code and line:column relative to the user's script",
+			"invariants checked at every kernel step: running simulated processes <= NumCPU given to the code; at return of the lint call (result or error): no running process, no unfinished callback task, every started process waited for",
+			"with an injected failure of a kind the property lists the call must return a fatal error; invocation and diagnostic exactness is then relaxed to 'nothing foreign, nothing twice'",
+			"a script larger than the 64 KiB pipe buffer (stdin is written before the process is started) is modelled (the writer would block forever) but not generated",
+		},
+	},
 }
